@@ -21,8 +21,8 @@ use testutils::write_random_commit_with_parents;
 const GROUP: usize = 20;
 
 /// parents[k] = earlier node numbers (0-based); empty = child of the root commit.
-fn gen_dag(rng: &mut Rng) -> (&'static str, Vec<Vec<usize>>) {
-    let n = rng.range(2, 8) as usize;
+fn gen_dag(rng: &mut Rng, max_n: u64) -> (&'static str, Vec<Vec<usize>>) {
+    let n = rng.range(2, max_n) as usize;
     match rng.below(6) {
         0 => ("chain", (0..n).map(|k| if k == 0 { vec![] } else { vec![k - 1] }).collect()),
         1 => {
@@ -65,8 +65,8 @@ struct Group {
     tx: Option<jj_lib::transaction::Transaction>,
 }
 
-fn build_group(rng: &mut Rng, committed: bool) -> Group {
-    let (shape, parents) = gen_dag(rng);
+fn build_group(rng: &mut Rng, committed: bool, max_n: u64) -> Group {
+    let (shape, parents) = gen_dag(rng, max_n);
     let n = parents.len();
     let mut anc = vec![vec![false; n]; n];
     for d in 0..n {
@@ -106,7 +106,10 @@ fn rand_target(rng: &mut Rng, n: usize) -> Terms {
         0 => vec![0],
         1..=4 => vec![1 + rng.usize(n)],
         5 | 6 => (0..3).map(|_| rand_term(rng, n)).collect(),
-        _ => (0..5).map(|_| rand_term(rng, n)).collect(),
+        _ => {
+            let len = if rng.chance(1, 4) { 7 } else { 5 };
+            (0..len).map(|_| rand_term(rng, n)).collect()
+        }
     }
 }
 
@@ -191,9 +194,11 @@ fn main() {
         for i in ctx.indices() {
             let gi = i / GROUP;
             if cur.as_ref().map(|(k, _)| *k) != Some(gi) {
-                cur = None; // drop the previous repo first
+                drop(cur.take()); // drop the previous repo first
                 let mut grng = ctx.rng(1_000_000 + gi);
-                cur = Some((gi, build_group(&mut grng, gi % 2 == 0)));
+                // thorough tier: DAGs of up to 12 commits
+                let max_n = if ctx.tier == "thorough" { 12 } else { 8 };
+                cur = Some((gi, build_group(&mut grng, gi % 2 == 0, max_n)));
             }
             let g = &cur.as_ref().unwrap().1;
             let mut rng = ctx.rng(i);
